@@ -113,6 +113,8 @@ def classify(f):
 
 
 def run(tier, v):
+    import corpuscheck
+    corpuscheck.check(v, "C11", tier)
     pool = vh.Pool()
     maxlen = 4 if tier == "thorough" else 3
     # pre-filter cost: items_for is cheap but called often; memoise
